@@ -388,7 +388,9 @@ def gen_config_goimports(rng, tree):
     wide = next(tp for tp in tree if tp["path"] == "wide")
     names = [d["name"] for f in wide["files"] for d in f["decls"] if d["name"].startswith("W")]
     chosen = rng.sample(names, 8)
-    explicit = rng.choice(chosen)
+    # goimports mimics the ALPHABETICALLY FIRST sibling file that imports a package called `rand`,
+    # so the file with the explicit import has to sort before the others to matter
+    explicit = min(chosen)
     c = cfg(all=False, dir=("fixed", "randmocks"), file=("iface", "r_", ".go"), pkgname=("fixed", "randmocks"),
             tmpl="file://./tpl/rand.templ", require=False)
     ifs = [{"name": n, "cfg": cfg(data={"explicit-rand": True}) if n == explicit else (None if rng.random() < 0.5 else cfg()), "entries": []} for n in chosen]
